@@ -21,7 +21,7 @@ def value_corpus(F, tier, name):
     recs += gen.g_lo_ones(F, rng, tier)
     recs += gen.g_tie_digit_counts(F, rng, tier)
     recs += gen.g_disguised_wrap(F, rng, tier)
-    recs += gen.g_short_eighths(F, rng, tier)
+    recs += gen.g_short_eighths(F, rng, tier)[:: 2 if q else 1]
     recs += gen.g_budget_splits(F, rng, tier)[:: 3 if q else 1]
     recs += gen.g_extremes(F, rng, big=20000 if q else 1000000)
     recs += gen.g_runs(F, rng, 80 if q else 3000)
